@@ -13,6 +13,9 @@ use serde::{Deserialize, Serialize};
 pub struct Case {
     pub i: Inst,
     pub off: i32,
+    /// a second offset applied to the value that already carries `off` (two-step history)
+    #[serde(default)]
+    pub off2: i32,
 }
 
 pub fn fmt_year4(y: i64) -> String {
@@ -106,10 +109,15 @@ impl Prop for DtOffset {
             let local_tod = *u.choose(&[0i64, 1, 86_399_999_999_999, 86_399_000_000_000, 43_200_000_000_000, 1_000_000_000])?;
             i.ns = (local_tod - off as i64 * 1_000_000_000).rem_euclid(86_400_000_000_000);
         }
-        Ok(Case { i, off })
+        let off2 = match u.below(4)? {
+            0 | 1 => 0,
+            2 => off,
+            _ => gen::offset(u)?,
+        };
+        Ok(Case { i, off, off2 })
     }
     fn check(c: &Case, cx: &mut Cx) -> Verdict {
-        if !c.i.valid() || c.off.abs() > 86_399 {
+        if !c.i.valid() || c.off.abs() > 86_399 || c.off2.abs() > 86_399 {
             return Verdict::Skip("malformed case");
         }
         if c.i.day < cal::MIN_DAY + 2 || c.i.day > cal::MAX_DAY - 2 {
@@ -133,9 +141,11 @@ impl Prop for DtOffset {
                 w.nanos_since(&v),
             );
             let x = v.as_offset(o);
-            (observe(&v), observe(&w), v == w, v.cmp(&w), w.cmp(&v), zeros, w.duration_between(&v).as_nanos(), observe(&x), rd_dt(&x), rd_dt(&w))
+            // second step: replace the offset of a value that already carries one
+            let w2 = w.set_offset(Offset::Fixed(c.off2));
+            (observe(&v), observe(&w), v == w, v.cmp(&w), w.cmp(&v), zeros, w.duration_between(&v).as_nanos(), observe(&x), rd_dt(&x), rd_dt(&w), observe(&w2), rd_dt(&w2))
         });
-        let (ov, ow, eq, c1, c2, zeros, dur, ox, ix, iw) = match r {
+        let (ov, ow, eq, c1, c2, zeros, dur, ox, ix, iw, ow2, iw2) = match r {
             Ok(v) => v,
             Err(p) => return fail("c10.dt_panic", format!("set_offset/as_offset({}) on {} return", c.off, fmt_instant(i)), p.short()),
         };
@@ -159,6 +169,17 @@ impl Prop for DtOffset {
         ensure_eq!("c10.as_offset_time_fields", format!("time fields after as_offset({}) on {}", c.off, fmt_instant(i)), vt, ox.2);
         ensure_eq!("c10.as_offset_instant", format!("instant after as_offset({}) on {}", c.off, fmt_instant(i)), i - c.off as i128 * tl::NS, ix);
         ensure_eq!("c10.as_offset_get_offset", "get_offset after as_offset", o, ox.3);
+        // two-step history: set_offset(off) then set_offset(off2) reads as set_offset(off2) alone
+        if c.off != 0 {
+            cx.nt("second_set_offset_on_an_offset_value");
+        }
+        let what2 = format!("{} after set_offset({}) then set_offset({})", fmt_instant(i), c.off, c.off2);
+        let (wd2, wt2, ws2) = expect_fields(i + c.off2 as i128 * tl::NS, c.off2);
+        ensure_eq!("c10.second_set_offset_instant", format!("instant of {}", what2), i, iw2);
+        ensure_eq!("c10.second_set_offset_get_offset", format!("get_offset of {}", what2), Offset::Fixed(c.off2), ow2.3);
+        ensure_eq!("c10.second_set_offset_date_getters", format!("date getters of {}", what2), wd2, ow2.1);
+        ensure_eq!("c10.second_set_offset_time_getters", format!("time getters of {}", what2), wt2, ow2.2);
+        ensure_eq!("c10.second_set_offset_format", format!("format of {}", what2), ws2, ow2.4);
         Verdict::Pass
     }
 }
@@ -167,6 +188,8 @@ impl Prop for DtOffset {
 pub struct TimeCase {
     pub ns: u64,
     pub off: i32,
+    #[serde(default)]
+    pub off2: i32,
 }
 
 pub struct TimeOffset;
@@ -182,11 +205,16 @@ impl Prop for TimeOffset {
             let local_tod = *u.choose(&[0i64, 1, 86_399_999_999_999, 86_399_000_000_000, 43_200_000_000_000, 1_000_000_000])?;
             ns = (local_tod - off as i64 * 1_000_000_000).rem_euclid(86_400_000_000_000);
         }
-        Ok(TimeCase { ns: ns as u64, off })
+        let off2 = match u.below(4)? {
+            0 | 1 => 0,
+            2 => off,
+            _ => gen::offset(u)?,
+        };
+        Ok(TimeCase { ns: ns as u64, off, off2 })
     }
     fn check(c: &TimeCase, cx: &mut Cx) -> Verdict {
         const DAY: i128 = 86_400_000_000_000;
-        if c.ns as i128 >= DAY || c.off.abs() > 86_399 {
+        if c.ns as i128 >= DAY || c.off.abs() > 86_399 || c.off2.abs() > 86_399 {
             return Verdict::Skip("malformed case");
         }
         let o = Offset::Fixed(c.off);
@@ -210,9 +238,10 @@ impl Prop for TimeOffset {
             let v = mk_time(c.ns);
             let w = v.set_offset(o);
             let x = v.as_offset(o);
-            (obs(&v), obs(&w), v == w, v.cmp(&w), w.nanos_since(&v), w.hours_since(&v), obs(&x))
+            let w2 = w.set_offset(Offset::Fixed(c.off2));
+            (obs(&v), obs(&w), v == w, v.cmp(&w), w.nanos_since(&v), w.hours_since(&v), obs(&x), obs(&w2))
         });
-        let (ov, ow, eq, cmp, ns_since, h_since, ox) = match r {
+        let (ov, ow, eq, cmp, ns_since, h_since, ox, ow2) = match r {
             Ok(v) => v,
             Err(p) => return fail("c10.time_panic", format!("Time set_offset/as_offset({}) on {} ns return", c.off, c.ns), p.short()),
         };
@@ -231,6 +260,15 @@ impl Prop for TimeOffset {
         ensure_eq!("c10.time_as_offset_fields", format!("fields after as_offset for {}", what), ov.0, ox.0);
         ensure_eq!("c10.time_as_offset_value", format!("as_nanos after as_offset for {}", what), (c.ns as i128 - c.off as i128 * tl::NS).rem_euclid(DAY) as u64, ox.1);
         ensure_eq!("c10.time_as_offset_get_offset", "get_offset after as_offset", o, ox.2);
+        if c.off2.abs() <= 86_399 {
+            let local2 = (c.ns as i128 + c.off2 as i128 * tl::NS).rem_euclid(DAY);
+            ensure_eq!(
+                "c10.time_second_set_offset",
+                format!("(getters, as_nanos, get_offset) of {} after a second set_offset({})", what, c.off2),
+                (fields(local2), c.ns, Offset::Fixed(c.off2)),
+                (ow2.0, ow2.1, ow2.2)
+            );
+        }
         Verdict::Pass
     }
 }
@@ -356,7 +394,7 @@ pub fn run(env: &mut Env) {
     env.run_enum::<DtOffset, _>(n_off, move |k| {
         let off = (-86_399 + k as i32 * stride).min(86_399);
         let ii = ii.clone();
-        (0..ii.len()).map(move |j| Case { i: ii[j], off })
+        (0..ii.len()).map(move |j| Case { i: ii[j], off, off2: if j % 2 == 0 { 0 } else { -off } })
     });
     env.run_enum::<TimeOffset, _>(n_off, move |k| {
         let off = (-86_399 + k as i32 * stride).min(86_399);
@@ -367,7 +405,7 @@ pub fn run(env: &mut Env) {
                 2 => (43_200_000_000_000 - off as i64 * 1_000_000_000).rem_euclid(86_400_000_000_000) as u64, // local noon
                 _ => (j * 1_371_428_571_428 + (j % 4) * 999_999_999) % 86_400_000_000_000,
             };
-            TimeCase { ns, off }
+            TimeCase { ns, off, off2: if j % 2 == 0 { 0 } else { -off } }
         })
     });
     if t {
